@@ -160,7 +160,13 @@ func randomInvs(cr *CheckRun) []*Invocation {
 	return out
 }
 
-func exampleText(p *Prog, spec, sl *GenSpec, seed int) string {
+func exampleText(p *Prog, spec, sl *GenSpec, seed int) (out string) {
+	defer func() {
+		// Example gives up (panics) on an unsatisfiable generator: that, too, must be the same every time
+		if r := recover(); r != nil {
+			out = fmt.Sprintf("!panic:%v", r)
+		}
+	}()
 	w := NewWorld("ex", ClockPolicy{}, false)
 	in := NewInterp(w, &Prog{NVars: p.NVars + 8})
 	in.env = &Env{vals: make([][2]int64, p.NVars+8), set: make([]bool, p.NVars+8)}
